@@ -213,6 +213,13 @@ def entry_points():
     # dimensionality
     E['Bycycle.fit.ndim'] = lambda v: Bycycle(thresholds=dict(S.T0)).fit((np.zeros((2,) * (v - 1) + (48,)) + sig[:48]) if v else np.array(1.), 64, (6, 14))
     E['BycycleGroup.fit.ndim'] = lambda v: BycycleGroup(thresholds=dict(S.T0)).fit((np.zeros((1,) * (v - 1) + (48,)) + sig[:48]) if v else np.array(1.), 64, (6, 14), n_jobs=1)
+    def refit(v):
+        first, second = v
+        bg = BycycleGroup(thresholds=dict(S.T0))
+        mk = lambda nd: (np.zeros((1,) * (nd - 1) + (48,)) + sig[:48]) if nd else np.array(1.)      # noqa: E731
+        bg.fit(mk(first), 64, (6, 14), n_jobs=1)
+        bg.fit(mk(second), 64, (6, 14), n_jobs=1)
+    E['BycycleGroup.refit.ndim'] = refit
     E['Bycycle.plot.before_fit'] = lambda v: Bycycle(thresholds=dict(S.T0)).plot()
     return E
 
@@ -265,6 +272,9 @@ def probes():
         P.append(['Bycycle.fit.ndim', v, exp])
     for v, exp in ((0, 'VE'), (1, 'VE'), (2, 'ok'), (3, 'ok'), (4, 'VE')):
         P.append(['BycycleGroup.fit.ndim', v, exp])
+    for first in (2, 3):
+        for second, exp in ((0, 'VE'), (1, 'VE'), (2, 'ok'), (3, 'ok'), (4, 'VE')):
+            P.append(['BycycleGroup.refit.ndim', [first, second], exp])
     P.append(['Bycycle.plot.before_fit', None, 'VE'])
     return P
 
